@@ -26,11 +26,11 @@ import (
 )
 
 type regionRow struct {
-	bit    int64
-	axis   int64
-	side   string // "Min" | "Max"
-	rel    string // "<", "<=", ">", ">=" (point REL box)
-	pos    token.Pos
+	bit  int64
+	axis int64
+	side string // "Min" | "Max"
+	rel  string // "<", "<=", ">", ">=" (point REL box)
+	pos  token.Pos
 }
 
 func (r regionRow) edge() string { return fmt.Sprintf("%s[%d]", r.side, r.axis) }
